@@ -104,6 +104,77 @@ type cs struct {
 	Sessions []string `json:"sessions,omitempty"` // the garbler's input per session
 	// appcirc: one invocation `garbled -circ -ssa f1 f2 ...` of the application; Files index appCircPrograms
 	Files []int `json:"files,omitempty"`
+	// envhist: the package root the LAST compilation resolves ($MPCLDIR); an earlier compilation in the same
+	// process resolved another root holding another version of the imported package
+	Root string `json:"root,omitempty"`
+}
+
+const envProg = "package main\n\nimport (\n\t\"envq\"\n)\n\nfunc main(a, b uint8) uint8 {\n\treturn envq.F(a) ^ b\n}\n"
+
+func envRoot(base, name string, k int) string {
+	root := filepath.Join(base, name)
+	os.MkdirAll(filepath.Join(root, "pkg", "envq"), 0755)
+	src := fmt.Sprintf("package envq\n\nconst K = %d\n\nfunc F(x uint8) uint8 {\n\treturn x + K\n}\n", k)
+	if err := os.WriteFile(filepath.Join(root, "pkg", "envq", "q.mpcl"), []byte(src), 0644); err != nil {
+		panic(err)
+	}
+	return root
+}
+
+func compileUnderRoot(root string) output {
+	old, had := os.LookupEnv("MPCLDIR")
+	os.Setenv("MPCLDIR", root)
+	defer func() {
+		if had {
+			os.Setenv("MPCLDIR", old)
+		} else {
+			os.Unsetenv("MPCLDIR")
+		}
+	}()
+	var ssa bytes.Buffer
+	params := utils.NewParams()
+	params.SSAOut = nopCloser{&ssa}
+	defer params.Close()
+	return compileWith(compiler.New(params), params, &ssa, envProg)
+}
+
+// runEnvHist: the package root is part of the environment of a compilation. A process that compiled under root A
+// and then compiles the same source under root B must produce what a fresh process under root B produces.
+func runEnvHist(ctx *runner.Ctx, k cs) {
+	if k.Expect != "" {
+		// child: a fresh process, root B only
+		o := compileUnderRoot(k.Root)
+		ctx.Nontrivial("envhist/child")
+		if h := o.hash(); h != k.Expect {
+			ctx.Violate("history-dependence.package-root", fmt.Sprintf("a process that had compiled under another package root produced hash %s for the program importing envq under %s; a fresh process produces %s (err=%q)", k.Expect, k.Root, h, o.err), cs{Mode: "envhist"})
+			return
+		}
+		ctx.Outcome("same-output-after-root-change")
+		return
+	}
+	base, err := os.MkdirTemp(os.Getenv("VERIF_WORK"), "c08env")
+	if err != nil {
+		panic(err)
+	}
+	defer os.RemoveAll(base)
+	rootA, rootB := envRoot(base, "a", 3), envRoot(base, "b", 5)
+	oA := compileUnderRoot(rootA)
+	oB := compileUnderRoot(rootB)
+	ref := compileUnderRoot(rootB) // and once more: repeated compilation under B
+	if oB.hash() != ref.hash() {
+		ctx.Violate("history-dependence.package-root", fmt.Sprintf("two compilations under the same package root differ (errs %q / %q)", oB.err, ref.err), k)
+		return
+	}
+	kk := k
+	kk.Root = rootB
+	kk.Expect = oB.hash()
+	if crashed, tail := ctx.RunIsolated(kk, 120*time.Second); crashed {
+		panic("envhist child died: " + tail)
+	}
+	// the two roots must matter, else the case shows nothing
+	if oA.err == "" && oB.err == "" && oA.circ == oB.circ {
+		ctx.Note("envhist: the two package roots gave the same circuit (the earlier root was used for both?)")
+	}
 }
 
 type output struct {
@@ -474,6 +545,10 @@ func runCase(ctx *runner.Ctx, k cs) {
 		runAppCase(ctx, k)
 		return
 	}
+	if k.Mode == "envhist" {
+		runEnvHist(ctx, k)
+		return
+	}
 	name := programs[k.Prog].name
 	base := baseline(k.Prog)
 	if base.err != "" {
@@ -713,6 +788,7 @@ func work(ctx *runner.Ctx) {
 	}
 	// concurrent compilations in one process under the race detector
 	emit(cs{Mode: "race"})
+	emit(cs{Mode: "envhist"})
 	// the application compiling several files in one invocation: every ordered selection of 1..3 of 4 programs
 	np := len(appCircPrograms)
 	for a := 0; a < np; a++ {
